@@ -477,7 +477,7 @@ class L0Poly(Family):
     boundary points included)."""
     name = "l0poly"
     batch = 200
-    budget_share = 0.5
+    budget_share = 1.0
 
     def cases(self, tier, rng):
         n = 1000 if tier == "quick" else 6000
@@ -564,9 +564,10 @@ class Contains(Family):
             yield [spec, pts_sx([], (0,)), 0, False, "c"]
             yield [spec, pts_sx([], (2, 0)), 0, False, "c"]
         # broadcast views: x varies along the last axis, y along the first (np.broadcast_to, stride 0)
-        nb = 60 if tier == "quick" else 600
+        nb = 120 if tier == "quick" else 1000
         for _ in range(nb):
-            kind = rng.choice(sorted(GENS))
+            # points_inside_poly is the one code path that unbroadcasts its input: polygons get half the cases
+            kind = rng.choice(sorted(GENS) + ["poly"] * 5)
             mode = rng.choice(["dy", "fl"])
             spec = GENS[kind](rng, mode)
             cx, cy, rad = roi_extent(spec)
@@ -578,7 +579,12 @@ class Contains(Family):
             dys = Fraction(max(1, math.ceil(2.4 * rad * 4 / max(ny - 1, 1))), 4)
             exact = exact_ok(spec, mode) and float(x0) == x0
             eps = Fraction(0) if exact else roi_scale(spec) * Fraction(1, 10 ** 6)
-            yield [spec, ["grid", qx(x0), qx(dxs), nx, qx(y0), qx(dys), ny], qx(eps), exact, rng.choice(["bcast", "bcast", "meshgrid", "bcast-x"])]
+            g = ["grid", qx(x0), qx(dxs), nx, qx(y0), qx(dys), ny]
+            if rng.random() < 0.4:
+                # x and y both constant along a leading axis of length k (both stride 0 there)
+                yield [spec, ["rep", rng.randint(1, 3), g], qx(eps), exact, "bcast3"]
+            else:
+                yield [spec, g, qx(eps), exact, rng.choice(["bcast", "bcast", "meshgrid", "bcast-x"])]
         # random regions of every class
         nr = 3000 if tier == "quick" else 30000
         for i in range(nr):
@@ -597,7 +603,14 @@ class Contains(Family):
     def run_impl(self, case):
         spec, ptsd, _eps, _exact, layout = case
         roi = mk_roi(spec)
-        if ptsd[0] == "grid":
+        if ptsd[0] == "rep":
+            k, g = ptsd[1], ptsd[2]
+            xs = np.array([fl(g[1]) + i * fl(g[2]) for i in range(g[3])])
+            ys = np.array([fl(g[4]) + j * fl(g[5]) for j in range(g[6])])
+            shape = (k, len(ys), len(xs))
+            x = np.broadcast_to(xs[None, None, :], shape)
+            y = np.broadcast_to(ys[None, :, None], shape)
+        elif ptsd[0] == "grid":
             xs = np.array([fl(ptsd[1]) + i * fl(ptsd[2]) for i in range(ptsd[3])])
             ys = np.array([fl(ptsd[4]) + j * fl(ptsd[5]) for j in range(ptsd[6])])
             shape = (len(ys), len(xs))
@@ -855,6 +868,8 @@ class Proj(Family):
 
     def cases(self, tier, rng):
         yield [["undef", "rect"], [qx(Fraction(m)) for m in MATS["identity"]], ["pts3", [1], [0, 0, 0]], 0, True, "c"]
+        # one call with more than 10^6 points also in the quick tier (cheapest region: a range)
+        yield [["range", "x", 100, 300], [qx(Fraction(m)) for m in MATS["scale-w2"]], ["grid3", 0, 1, 1001, 0, 1, 1001, 0, 1, 1], 0, True, "bcast"]
         n = 600 if tier == "quick" else 4000
         for i in range(n):
             kind = rng.choice(["rect", "circle", "ellipse", "poly", "range", "annulus"])
@@ -1054,6 +1069,8 @@ THEOREMS = [
     "C08.rotate_equivariant_polygon_spec",
     "C08.rotate_equivariant_polygon",
     "C08.rotateTo_polygon",
+    "C08.polygon_centroid_rotate",
+    "C08.center_rotateTo",
     "C08.polygon_band_contains_boundary",
     "C08.copy_same",
     "C08.params_roundtrip",
